@@ -173,7 +173,8 @@ pub fn gen_cases(seed: u64, n: usize, _thorough: bool) -> Vec<String> {
         let mode = if rng.chance(1, 4) { "nopipe" } else { "all" };
         // one program in eight names its resources with words one of the targets reserves (c05: `<entry>+R`)
         // one in ten declares them through typedefs (c05: `<entry>+T`)
-        let entry = if rng.chance(1, 8) { "CSMAIN+R".to_string() } else if rng.chance(1, 10) { "CSMAIN+T".to_string() } else { rng.pick(&entries).to_string() };
+        // one in five is a pipeline of several stages, half of them with the stage properties in reverse order
+        let entry = if rng.chance(1, 8) { "CSMAIN+R".to_string() } else if rng.chance(1, 10) { "CSMAIN+T".to_string() } else if rng.chance(1, 5) { rng.pick(&["VSPS", "VSPS+O", "TASKMESH", "TASKMESH+O", "MESH", "MESH+O"]).to_string() } else { rng.pick(&entries).to_string() };
         out.push(format!("X R {} {} {} {} {} U{} H{} {} {}", rng.below(3), entry, rng.range(1, 8), rng.range(1, 4), rng.range(1, 2), u, h, ds.join(" "), mode).split_whitespace().collect::<Vec<_>>().join(" "));
     }
     out
